@@ -177,7 +177,7 @@ static void ProcessFile(char const* FileName, LongWord Offset) {
     Boolean  CDataLower = !!strchr(CFormat, 'd'), CDataUpper = !!strchr(CFormat, 'D');
     Byte     Buffer[MaxLineLen];
     Word*    WBuffer = (Word*)Buffer;
-    LongWord ErgStart, ErgStop = 0xfffffffful, IntOffset = 0, MaxAdr;
+    LongWord ErgStart, ErgStop = 0xfffffffful, IntOffset = 0, MaxAdr, GroupLineLen;
     LongInt  NextPos;
     LongWord ValidSegs;
     Word     ErgLen = 0, ChkSum = 0, RecCnt, Gran, HSeg;
@@ -305,12 +305,7 @@ static void ProcessFile(char const* FileName, LongWord Offset) {
                     ChkIO(FileName);
                 }
 
-                /* Statistik, Anzahl Datenzeilen ausrechnen */
-
-                RecCnt = ErgLen / LineLen;
-                if ((ErgLen % LineLen) != 0) {
-                    RecCnt++;
-                }
+                GroupLineLen = LineLen;
 
                 /* relative Angaben ? */
 
@@ -343,6 +338,20 @@ static void ProcessFile(char const* FileName, LongWord Offset) {
                     }
                     if (MaxMoto < MotRecType) {
                         MaxMoto = MotRecType;
+                    }
+
+                    /* the count byte of an S-record covers address, data and
+                       checksum, which limits the data to 252/251/250 bytes */
+
+                    if (GroupLineLen > ((252u - MotRecType) & ~1u)) {
+                        GroupLineLen = (252u - MotRecType) & ~1u;
+                    }
+
+                    /* Statistik, Anzahl Datenzeilen ausrechnen */
+
+                    RecCnt = ErgLen / GroupLineLen;
+                    if ((ErgLen % GroupLineLen) != 0) {
+                        RecCnt++;
                     }
                     if (Rec5) {
                         ChkSum = Lo(RecCnt) + Hi(RecCnt) + 3;
@@ -443,7 +452,7 @@ static void ProcessFile(char const* FileName, LongWord Offset) {
                        Bei Atmel nur 2 Byte pro Zeile!
                        Bei Mico8 nur 4 Byte (davon ein Wort=18 Bit) pro Zeile! */
 
-                    TransLen = min(LineLen, ErgLen);
+                    TransLen = min(GroupLineLen, ErgLen);
                     if ((ActFormat == eHexFormatIntel32)
                         && ((ErgStart & 0xffff) + (TransLen / Gran) >= 0x10000)) {
                         TransLen  = Gran * (0x10000 - (ErgStart & 0xffff));
